@@ -18,6 +18,7 @@ type summary struct {
 	results      []string        // scalar result types
 	retAlias     string          // *Element result: the parameter it is
 	noalias      [][2]string
+	fragmented   bool // contains a loop: emitted as fragments, cannot be called
 	text         string
 }
 
@@ -42,6 +43,12 @@ type ftrans struct {
 	inSeen   map[*gvar]bool
 	emitting bool
 	out      *strings.Builder
+	nseq     int
+	// loops (see loops.go)
+	fragmented bool     // the body contains a loop: only fragments are emitted
+	inFragment bool     // currently inside a loop fragment
+	frags      []string // texts of the loop fragments
+	stateType  string   // Coq type of the loop state
 }
 
 func coqNameOf(key string) string {
@@ -93,6 +100,8 @@ func (p *pkg) translate(key string, at ast.Node) *summary {
 		p.failAt(fd, "Coq name %s of %s is reserved", ft.sum.coqName, key)
 	}
 	ft.signature()
+	ft.fragmented = containsLoop(fd.Body.List)
+	ft.sum.fragmented = ft.fragmented
 	// which pointer parameters are written: syntactic pre-scan
 	e0 := ft.initialEnv(nil)
 	ft.outSet = map[*gvar]bool{}
@@ -247,27 +256,25 @@ func (ft *ftrans) definition(body string) string {
 	for _, pr := range ft.sum.noalias {
 		fmt.Fprintf(&b, "(* ASSUMPTION: the pointers %s and %s are distinct. *)\n", pr[0], pr[1])
 	}
-	b.WriteString("Definition " + ft.sum.coqName)
+	name, rtype := ft.sum.coqName, ft.resultType()
+	if ft.fragmented {
+		fmt.Fprintf(&b, "(* This function contains a loop: it is translated to the fragments %s_pre,\n"+
+			"   %s_loop<k>_cond/_body, %s_tail (see tools/limbgen/loops.go).\n   State at the head of the outer loop: %s *)\n",
+			name, name, name, ft.stateType)
+		name, rtype = name+"_pre", rtype+" + ("+ft.stateType+")"
+	}
+	b.WriteString("Definition " + name)
 	for _, pa := range ft.sum.params {
 		if pa.typ == "elem" && !ft.sum.isIn[pa.name] {
 			continue
 		}
 		b.WriteString(" (" + pa.name + " : " + coqType(pa.typ) + ")")
 	}
-	var rts []string
-	for _, pa := range ft.sum.params {
-		if pa.typ == "elem" && ft.sum.isOut[pa.name] {
-			rts = append(rts, "el")
-		}
-	}
-	for _, r := range ft.sum.results {
-		rts = append(rts, coqType(r))
-	}
-	if len(rts) == 0 {
-		ft.p.failAt(ft.fd, "%s: function writes nothing and returns nothing", ft.sum.key)
-	}
-	b.WriteString(" : " + strings.Join(rts, " * ") + " :=\n")
+	b.WriteString(" : " + rtype + " :=\n")
 	b.WriteString(strings.TrimRight(body, "\n") + ".\n")
+	for _, f := range ft.frags {
+		b.WriteString("\n" + f)
+	}
 	return b.String()
 }
 
